@@ -363,7 +363,7 @@ Definition feature_pm (d : tm) (dc : decl) (b : bool) : pmeta :=
 Lemma feat_prop_meta name b xs : name <> "" ->
   create_props_metadata name (feat_prop b name xs) = Ok (new_pm (if b then DI64 else DF64) false).
 Proof.
-  intros Hn. unfold create_props_metadata, feat_prop, upcast_prop, upcast_arr. cbn [p_vals a_dt].
+  intros Hn. unfold create_props_metadata, vlen_dtypes_uniform, cpm_core, feat_prop, upcast_prop, upcast_arr. cbn [p_vals a_dt].
   destruct b; cbn [dtype_eqb p_vals a_dt]; rewrite (seqb_neq _ _ Hn); reflexivity.
 Qed.
 
